@@ -197,6 +197,7 @@ theorem decimal_round_lex (l : Lex) (hwf : l.WF) (hex : l.ex = none) (p : Int) (
       simp only [] at hrw ⊢
       have hol := outLex_plain l.sg.neg r1 r2 (!r2.isEmpty) hrw.dip hrw.dfp
         (by intro h; cases r2 with | nil => rfl | cons _ _ => simp at h) hrw.nonempty
+        (by intro h; cases r2 with | nil => simp at h | cons _ _ => simp) hrw.lead
       have hstr : (if (!r2.isEmpty) = true then '.' :: r2 else []) = (if r2.isEmpty = true then [] else '.' :: r2) := by
         cases r2 <;> simp
       rw [hstr] at hol
